@@ -28,6 +28,9 @@ from bv.engine import vclock
 from bv.engine.acc import Acc, h64
 from bv.engine.ctlnet import CtlNetwork, Wire
 from bv.engine.pool import HarnessError, chunks, run_shards
+from bv.engine.canon import canon as generic_canon, SKIP as _CANON_SKIP
+
+GENERIC_SKIP = frozenset(_CANON_SKIP | {"adapterSAP", "adapterAddr", "adapters", "router_info_cache", "local_adapter"})
 from bv.refs import routeref
 from bv.refs.routeref import NodeRef, RouteRef, net_key
 
@@ -630,7 +633,11 @@ def b_run(variant, u, hist, probes=True, broadcast_probes=False):
              tuple((a.adapterNet, a.adapterNetConfigured, mac_of(a.adapterAddr)) for a in ctx.nsap.adapters.values()),
              tuple(ctx.adapters.index(a) for a in ctx.nsap.adapters.values()),
              tuple(sorted(ctx.nsap.pending_nets, key=repr)),
-             cache_canon(cache))
+             cache_canon(cache),
+             # over-approximation on purpose: every scalar attribute of the adapters, the access point and the cache
+             # records, so that a field added by a change to the code (a memo, a counter) keeps states apart
+             tuple(generic_canon(a, skip=GENERIC_SKIP) for a in ctx.nsap.adapters.values()),
+             generic_canon(cache, skip=GENERIC_SKIP))
     if bad is None and probes:
         serial = 0
         for broadcast in ((False, True) if broadcast_probes else (False,)):
